@@ -308,6 +308,36 @@ def _cls_join(case):
     return out
 
 
+def _va_lines(rnd):
+    """Zenith angles 0.001 .. 359.999 (two lines: a short and a long sight) and the slope distance (log-spaced 0.1 m .. 50 km)."""
+    out = []
+    for sd in (10.0 ** rnd.uniform(-1.0, 1.5), 10.0 ** rnd.uniform(2.0, 4.7)):
+        hi, ht = rnd.choice([0.0, rnd.uniform(-5.0, 5.0)]), rnd.choice([0.0, rnd.uniform(-5.0, 5.0)])
+        out.append((1.0, lambda f, s_=sd, a=hi, b=ht: {"zen": min(max(0.001 + 359.998 * f, 0.001), 359.999), "slope": s_, "hi": a, "ht": b}))
+    z = rnd.uniform(60.0, 120.0)
+    out.append((0.5, lambda f, z_=z: {"zen": z_, "slope": 10.0 ** (-1.0 + 5.699 * f), "hi": 1.5, "ht": 1.7}))
+    return [(w, (lambda f, g=fn: _no180(g(f)))) for w, fn in out]
+
+
+def _no180(c):
+    if abs(c["zen"] - 180.0) < 1e-3:
+        c["zen"] = 180.001
+    return c
+
+
+def _atm_lines(rnd):
+    """Temperature, pressure, carrier wavelength, humidity fraction, CO2 content and reference index each walked across its range,
+    the rest of the atmosphere fixed per line by the seed."""
+    rng = {"T": (-20.0, 45.0), "P": (650.0, 1100.0), "lam": (0.4, 1.6), "efrac": (0.0, 1.0), "co2": (300.0, 600.0), "nref": (1.00025, 1.00031)}
+    out = []
+    for key in ("T", "P", "lam", "efrac", "co2", "nref"):
+        base = {k: rnd.uniform(*v) for k, v in rng.items()}
+        base.update(dist=10.0 ** rnd.uniform(2.0, 4.7), kd=rnd.uniform(0.1, 10.0))
+        lo, hi = rng[key]
+        out.append((1.0, lambda f, b=base, k=key, l=lo, h=hi: dict(b, **{k: l + (h - l) * f})))
+    return out
+
+
 SUBCHECKS = [
     SubCheck("join_then_radiate", check_join_radiate, strategy=join_cases(), classes=_cls_join,
              nontrivial=lambda c: c["e1"] != c["e2"] and c["n1"] != c["n2"], quick=4000, thorough=300000, shards_quick=2, shards_thorough=8,
@@ -322,6 +352,11 @@ SUBCHECKS = [
              seq_groups=[["dist", "kd"], ["lam"], ["T", "P", "efrac"], ["co2"], ["nref"]],
              fresh=(8, 64, 3), rule="defined on the whole atmosphere domain incl. 0 C / 0 %; Ciddor form = (n_ref / n_g - 1) d; linear in d; within 1 ppm "
                   "of the closed form at 420 ppm for carriers 0.5..1.0 um; sequences re-use the atmosphere with another carrier"),
+    SubCheck("zenith_axis_sweeps", check_va, enumerate=S.sweeps(1919, _va_lines, 20000, 400000), shards_quick=4, shards_thorough=8,
+             rule="stratified sweeps of the zenith angle (0.001 .. 359.999 deg, two lines) and the slope distance (20 000 / 400 000 lattice points per line, seeded)"),
+    SubCheck("atmosphere_axis_sweeps", check_first_vel, enumerate=S.sweeps(1920, _atm_lines, 4000, 80000), classes=_cls_atm,
+             shards_quick=8, shards_thorough=16,
+             rule="stratified sweeps of temperature, pressure, wavelength, humidity, CO2 and reference index (4 000 / 80 000 lattice points per line, seeded)"),
     SubCheck("first_velocity_wet_bulb", check_wet_bulb, strategy=wet_cases, classes=_cls_atm, quick=1500, thorough=50000,
              shards_quick=1, shards_thorough=4, rule="closed form with a wet-bulb temperature (incl. exactly 0 C): defined, linear in d"),
     SubCheck("dispersion_identity", check_dispersion, strategy=disp_cases, classes=_cls_atm, quick=3000, thorough=200000,
